@@ -14,6 +14,12 @@ from dataclasses import dataclass, field
 
 from hypothesis import strategies as st
 
+DEVICE_HEADER = (
+    "from Reduino.Actuators import RGBLed, Servo, DCMotor, Buzzer\n"
+    "from Reduino.Sensors import Button, Potentiometer, Ultrasonic\n"
+    "from Reduino.Displays import LCD\n"
+)
+
 HEADER = (
     "from Reduino import target\n"
     "from Reduino.Actuators import Led\n"
@@ -35,6 +41,8 @@ class Profile:
     main_loop: float = 0.8       # probability of a top-level while True
     helpers: int = 2
     hostile_strings: bool = False
+    devices: float = 0.0         # probability that a program declares extra devices
+    loop_decl: float = 0.0       # probability that a hoistable device is declared at the top of the main-loop body
     off: set = field(default_factory=set)   # feature classes switched off by construction
     weights: dict = field(default_factory=dict)
 
@@ -78,6 +86,10 @@ class Gen:
         self.loop_vars = []
         self.fuel_id = 0
         self.no_calls = 0
+        self.devs = {}      # device name -> kind
+        self.loop_devs = []  # declaration lines to put at the top of the main-loop body
+        self.loop_only = set()  # devices that exist only inside the main loop
+        self.in_main_now = False
 
     # ---------------------------------------------------------------- helpers
     def d(self, strategy):
@@ -157,6 +169,10 @@ class Gen:
             cs = [n for n in cs if n in self.const]
         if cs:
             opts += [lambda: (self.feat("len_name"), f"len({self.choice(cs)})")[1]] * 2
+        if self.devs and not self.no_calls:
+            g_ = self.dev_getter("int")
+            if g_:
+                opts.append(lambda g_=g_: g_)
         hs = [h for h in self.helpers if h[2] == "int" and h[0] != self.in_func]
         if hs and not self.no_calls:
             opts += [lambda: self.call(self.choice(hs), depth - 1)] * 2
@@ -188,6 +204,10 @@ class Gen:
                      lambda: self.macro(lambda: f"min({sub()}, {sub()})")]
         if self.p.on("int_truediv"):
             opts.append(lambda: f"({self.e_int(depth - 1)} / {self.int_lit(1, 9)})")
+        if self.devs and not self.no_calls:
+            g_ = self.dev_getter("float")
+            if g_:
+                opts.append(lambda g_=g_: g_)
         hs = [h for h in self.helpers if h[2] == "float" and h[0] != self.in_func]
         if hs and not self.no_calls:
             opts += [lambda: self.call(self.choice(hs), depth - 1)] * 2
@@ -220,6 +240,10 @@ class Gen:
         snm = self.names("str")
         if snm:
             opts.append(lambda: (self.feat("str_eq"), f"({self.choice(snm)} {self.choice(['==', '!='])} {self.e_str(depth - 1)})")[1])
+        if self.devs and not self.no_calls:
+            g_ = self.dev_getter("bool")
+            if g_:
+                opts.append(lambda g_=g_: g_)
         hs = [h for h in self.helpers if h[2] == "bool" and h[0] != self.in_func]
         if hs and not self.no_calls:
             opts += [lambda: self.call(self.choice(hs), depth - 1)]
@@ -466,6 +490,96 @@ class Gen:
             return self.s_write(depth, loop_depth, in_main)
         return [("b", f"if {self.e_bool(1)}:", [("s", f"mon.write({self.int_lit()})"), ("s", "continue")])]
 
+    # ---------------------------------------------------------------- devices
+    DEV_DECL = {
+        "rgb": lambda g: f"RGBLed({g.choice(['9, 10, 11', '3, 5, 6'])})",
+        "srv": lambda g: g.choice(["Servo(6)", "Servo(7, min_angle=10, max_angle=170)", "Servo(pin=6, min_pulse_us=600, max_pulse_us=2300)"]),
+        "mot": lambda g: "DCMotor(2, 4, 3)",
+        "bz": lambda g: g.choice(["Buzzer(8)", "Buzzer(8, default_frequency=523.0)"]),
+        "btn": lambda g: "Button(10)",
+        "pot": lambda g: g.choice(["Potentiometer('A2')", "Potentiometer(\"A3\")"]),
+        "us": lambda g: g.choice(["Ultrasonic(7, 8)", "Ultrasonic(7, 8, sensor='HC-SR04')"]),
+        "lcd": lambda g: g.choice(["LCD(rs=12, en=11, d4=5, d5=4, d6=3, d7=2)", "LCD(rs=12, en=11, d4=5, d5=4, d6=3, d7=2, cols=20, rows=4, backlight_pin=10)",
+                                   "LCD(rs=12, en=11, d4=5, d5=4, d6=3, d7=2, rw=13, cols=8, rows=1)"]),
+        "lci": lambda g: g.choice(["LCD(i2c_addr=0x27)", "LCD(i2c_addr=39, cols=20, rows=4)"]),
+    }
+    HOISTABLE = {"rgb", "srv", "mot", "btn", "pot", "us"}
+
+    def declare_devices(self):
+        lines = []
+        kinds = [k for k in self.DEV_DECL if self.chance(0.45)]
+        for k in kinds:
+            decl = f"{k} = {self.DEV_DECL[k](self)}"
+            self.devs[k] = k
+            if k in self.HOISTABLE and self.chance(self.p.loop_decl):
+                self.loop_devs.append(decl)
+                self.loop_only.add(k)
+                self.feat("device_declared_in_loop")
+            else:
+                lines.append(("s", decl))
+            self.feat("device:" + k)
+        return lines
+
+    def has(self, k):
+        return k in self.devs and (self.in_main_now or k not in self.loop_only)
+
+    def dev_getter(self, t):
+        """Expression of type t reading device state, or None."""
+        c = []
+        if t == "int":
+            if self.has("btn"): c.append("btn.is_pressed()")
+            if self.has("pot"): c.append("pot.read()")
+            c.append("led.get_brightness()")
+            if self.has("mot"): c.append("mot.is_inverted()")
+        elif t == "float":
+            if self.has("srv"): c += ["srv.read()", "srv.read_us()"]
+            if self.has("mot"): c += ["mot.get_speed()", "mot.get_applied_speed()"]
+            if self.has("us") and not (self.in_func and not self.p.on("helper_uses_late_helpers")): c.append("us.measure_distance()")
+            if self.has("bz"): c += ["bz.get_frequency()", "bz.get_last_frequency()"]
+        elif t == "bool":
+            c.append("led.get_state()")
+            if self.has("bz"): c.append("bz.get_state()")
+        elif t == "str":
+            if self.has("mot"): c.append("mot.get_mode()")
+        if not c:
+            return None
+        self.feat("device_getter")
+        return self.choice(c)
+
+    def s_device(self, depth, loop_depth, in_main):
+        ks = [k for k in self.devs if self.has(k) and not (self.in_func and k in ("us", "lcd", "lci") and not self.p.on("helper_uses_late_helpers"))] + ["led"]
+        k = self.choice(ks)
+        i = lambda d=1: self.e_int(d)
+        f = lambda d=1: self.e_float(d)
+        b = lambda: self.choice(["True", "False", self.e_bool(1)])
+        txt = lambda: self.e_str(1)
+        small = lambda: self.int_lit(0, 5)
+        calls = {
+            "led": ["on()", "off()", "toggle()", f"set_brightness({i()})", f"blink({small()}, {small()})", f"blink(duration_ms={i()})", f"fade_in({i()}, {small()})",
+                    f"fade_out(step={small()}, delay_ms={small()})", f"flash_pattern([1, 0, {self.int_lit(0, 255)}], {small()})", "flash_pattern([])"],
+            "rgb": [f"set_color({i()}, {i()}, {i()})", f"on({i()}, {i()}, {i()})", "on()", "off()", f"fade({i()}, {i()}, {i()}, {small()}, {small()})",
+                    f"blink({i()}, {i()}, {i()}, times={small()}, delay_ms={small()})", f"on(green={i()})"],
+            "srv": [f"write({i()})", f"write({f()})", f"write_us({i()})", f"write_us(pulse={f()})"],
+            "mot": [f"set_speed({f()})", f"backward({f()})", "backward()", "stop()", "coast()", "invert()", f"ramp({f()}, {small()})", f"run_for({small()}, {f()})", f"ramp(target_speed={f()}, duration_ms={i()})"],
+            "bz": [f"play_tone({i()})", f"play_tone({f()}, {small()})", "stop()", f"beep({i()}, on_ms={small()}, off_ms={small()}, times={small()})", "beep()",
+                   f"sweep({i()}, {i()}, duration_ms={small()}, steps={small()})", f"melody({self.choice(['success', 'error', 'startup', 'notify', 'alarm', 'scale_c', 'siren'])!r})",
+                   f"melody('siren', tempo={i()})"],
+            "btn": [], "pot": [], "us": [],
+            "lcd": None, "lci": None,
+        }
+        lcd_calls = [f"write({small()}, 0, {txt()})", f"line(0, {txt()})", f"line(0, {txt()}, align='center', clear_row=False)", f"message({txt()}, {txt()})", f"message({txt()})", "clear()",
+                     f"display({b()})", f"backlight({b()})", f"brightness({i()})", f"glyph({self.int_lit(0, 7)}, [1, 2, 4, 8, 16, 31, 0, 21])",
+                     f"progress(0, {i()}, 100)", f"progress(0, {i()}, {self.int_lit(1, 200)}, width={self.int_lit(1, 20)}, style={self.choice(['block', 'hash', 'pipe', 'dot'])!r}, label={txt()})",
+                     f"animate({self.choice(['scroll', 'blink', 'typewriter', 'bounce'])!r}, 0, {txt()}, speed_ms={small()}, loop={self.choice(['True', 'False'])})"]
+        opts = calls.get(k)
+        if opts is None:
+            opts = lcd_calls
+        if not opts:
+            g = self.dev_getter(self.choice(["int", "float"]))
+            return [("s", f"mon.write({g})")] if g else self.s_write(depth, loop_depth, in_main)
+        self.feat("device_call:" + k)
+        return [("s", f"{k}.{self.choice(opts)}")]
+
     # ---------------------------------------------------------------- helpers (functions)
     def helper(self, idx):
         name = f"h{idx}"
@@ -548,13 +662,24 @@ class Gen:
             self.vars["l1"] = "list_int"
             self.list_len["l1"] = b - a
             self.const.add("l1")
+        if self.chance(self.p.devices):
+            nodes = [("s", ln) for ln in DEVICE_HEADER.strip().split("\n")] + nodes
+            dev_nodes = self.declare_devices()
+            nodes.extend(dev_nodes)
+            self.p.weights = dict(self.p.weights, device=6)
+        if "btn" in self.devs and self.chance(0.5) and False:
+            pass
         for i in range(self.d(st.integers(0, self.p.helpers))):
             nodes.append(self.helper(i))
         nodes.extend(self.block(0, 0, False, 8))
         has_main = self.chance(self.p.main_loop)
         if has_main:
             self.feat("main_loop")
-            nodes.append(("b", "while True:", self.block(1, 1, True, 8)))
+            self.in_main_now = True
+            nodes.append(("b", "while True:", [("s", d) for d in self.loop_devs] + self.block(1, 1, True, 8)))
+            self.in_main_now = False
+        elif self.loop_devs:
+            nodes.append(("b", "while True:", [("s", d) for d in self.loop_devs] + [("s", "mon.write(0)")]))
         return nodes
 
 
